@@ -153,7 +153,15 @@ def run(ctx):
             nr, nc = rng.randint(1, 3), rng.randint(1, 4)
             do_case(ctx, {"dim": 2, "method": rng.choice(["first", "last", "min", "max"]), "axis": rng.choice([0, 1]),
                           "m": [[rng.choice(BIG) for _ in range(nc)] for _ in range(nr)]})
-        elif r < 0.1:
+        elif r < 0.09:
+            # magnitudes above 2**53 that differ by one or two (timestamps, ids used as priorities): distinct priorities must
+            # stay distinct — the weights depend on how many distinct priorities there are, not on how large they are
+            B = rng.choice([2**53, 2**56, 2**60])
+            vals = [B, B + 1, B + 2, -(B + 1), -B, 0, 0, 5, -7]
+            nr, nc = rng.randint(1, 3), rng.randint(2, 5)
+            do_case(ctx, {"dim": 2, "method": rng.choice(["shadow", "shadow", "prio", "rank"]), "axis": rng.choice([0, 0, 1]),
+                          "m": [[rng.choice(vals) for _ in range(nc)] for _ in range(nr)]})
+        elif r < 0.12:
             runs = []
             for _ in range(rng.randint(1, 8)):
                 v = rng.choice([1, -1, 2, -2, 3, -3, 7, -9])
